@@ -187,12 +187,7 @@ impl<'store> Transposable<'store> for ResultTextSelectionSet<'store> {
                             let source_offset: Offset = intersection.into();
                             if let Some(remainder) = remainder {
                                 if remainder.begin() < intersection.begin() {
-                                    //not a valid intersection, skip to the next
-                                    relative_offsets.clear();
-                                    selectors_per_side[side_i].clear();
-                                    source_textselections.clear();
-                                    source_side = None;
-                                    source_found = false;
+                                    //not a valid intersection (this fragment does not hold the begin of the text selection), skip to the next fragment
                                     if config.debug {
                                         eprintln!("[stam transpose] remainder preceeds intersection, bailing out...");
                                     }
